@@ -185,3 +185,38 @@ Fixpoint nodup_p (l : list id) : bool :=
   match l with [] => true | x :: tl => negb (memp x tl) && nodup_p tl end.
 Definition g_ssa (l : list stmt) : bool := nodup_p (all_defs l).
 
+
+(* ---- reassign as a program edit: which symbols may have a different value afterwards -------- *)
+(* Walking the ORIGINAL program: every assignment of [s] is edited (the earlier ones are deleted, the
+   last one gets the new right-hand side), so [s] becomes tainted there; a statement that reads a
+   tainted symbol taints what it defines; any other statement cleans what it defines. *)
+Fixpoint taint (s : id) (l : list stmt) (dirty : list id) : list id :=
+  match l with
+  | [] => dirty
+  | st :: tl =>
+      if is_assign_of s st then taint s tl (s :: dirty)
+      else if interp_nonempty (rhs st) dirty then taint s tl (defs st ++ dirty)
+      else taint s tl (diffp dirty (defs st))
+  end.
+Definition reassign_taint (l : list stmt) (s : id) : list id := taint s l [].
+
+(* the statements before the last assignment of [s], with the earlier assignments of [s] deleted *)
+Definition before_last_assignment (l : list stmt) (s : id) : list stmt :=
+  match find_assignment_index l s with
+  | Some i => filter (fun st => negb (is_assign_of s st)) (firstn i l)
+  | None => l
+  end.
+(* no compartmental system after the last assignment has [s] among its amounts *)
+Definition g_not_overwritten (l : list stmt) (s : id) : bool :=
+  match find_assignment_index l s with
+  | Some i => negb (existsb (fun st => memp s (defs st)) (skipn (S i) l))
+  | None => false
+  end.
+
+(* ---- Statements.subs({A: Z}) as a renaming of an assigned symbol ------------------------------ *)
+(* guard: no compartmental system (CompartmentalSystem.subs belongs to C05), Z differs from A and occurs
+   nowhere in the program *)
+Definition g_rename (a z : id) (l : list stmt) : bool :=
+  negb (has_ode_any l) && negb (Pos.eqb a z) &&
+  forallb (fun st => negb (memp z (defs st)) && negb (memp z (rhs st))) l.
+
